@@ -1,4 +1,5 @@
 """C12 — bindings are lexical and transparent; pipes and later selects keep their inputs."""
+import re
 from lib.prov import Prov
 from rules import common
 from rules import pipeline_rules as P
@@ -121,6 +122,7 @@ def run(ctx, rep):
             elif want in ("extend", "parents"):
                 _extend(r, r2, key, want, b, pr, rv["ops"][fi], bb, idx, fi, fi_input, fields, lib)
     common.clone_faithful(rep, lib)
+    scope_lookup(rep, lib)
     macro_unevaluated(rep, lib)
     build_shape(rep, lib)
     # ------------------------------------------------------------ BODY-IN-NEW / PIPE
@@ -192,6 +194,46 @@ def run(ctx, rep):
                 r4.ok("pipe", "%d with_inupt site(s), %d stage evaluation(s)" % (len(wi), len(gets)), b.where())
             else:
                 r4.bad("pipe", "a pipe stage is not evaluated in with_inupt(previous stage's value)", b.where())
+
+
+
+def scope_lookup(rep, lib, rid="C12-SHADOW"):
+    """An inner binding of a name shadows the outer one: the scope is a keyed map (insert replaces the entry), or - if
+    it is a sequence that keeps both - the lookup takes the innermost, i.e. searches from the end it is extended at."""
+    r = rep.rule(rid, "a binding shadows an outer binding of the same name: variables and macros live in a keyed map "
+                 "whose insert replaces, or the lookup of a sequence scope searches from the newest entry", floor=2,
+                 analysis="A7 type of the scope fields + census of the search direction in the lookup functions")
+    cadt = lib.adts.get("processor::Context")
+    if not cadt:
+        r.missing("processor::Context")
+        return
+    ftys = {f["name"]: f["ty"] for f in cadt["variants"][0]["fields"]}
+    for field, getter in (("variables", "get_variable_value"), ("definitions", "get_definition")):
+        ty = ftys.get(field)
+        if ty is None:
+            r.missing("Context.%s" % field)
+            continue
+        key = "Context.%s" % field
+        if re.search(r"(HashMap|IndexMap|BTreeMap)<std::string::String", ty) or re.search(r"(HashMap|IndexMap|BTreeMap)<std::rc::Rc<std::string::String", ty):
+            r.ok(key, "keyed map: %s" % ty[:70], "", nontrivial=False)
+            continue
+        b = lib.bodies.get("processor::Context::" + getter)
+        if b is None:
+            r.bad(key, "the scope is %s (not a keyed map) and its lookup function %s was not found" % (ty[:80], getter), "")
+            continue
+        names = [(c.callee or c.name or "") for c in b.calls]
+        backwards = any(n.endswith(("Iterator::rev", "DoubleEndedIterator::rfind", "Iterator::rposition",
+                                    "DoubleEndedIterator::next_back", "::rfind", "::last")) for n in names)
+        ctor = lib.bodies.get("processor::Context::" + ("with_variable" if field == "variables" else "with_definition"))
+        front = ctor is not None and any((c.name or "").endswith(("::insert", "::push_front")) and "Vec" in (c.name or "") + (c.full or "")
+                                         or (c.name or "").endswith("::push_front") for c in ctor.calls)
+        if backwards != front:
+            r.ok(key, "sequence scope searched from the newest entry", b.where())
+        else:
+            r.bad(key, "the scope is a sequence (%s) that keeps an outer and an inner binding of the same name, and "
+                  "%s finds the %s one: (set n 1 (set n 2 :n)) sees the outer value" % (ty[:70], getter,
+                                                                                         "older" if not front else "older"),
+                  b.where())
 
 
 def _container_local(b, pr, operand, bb, idx):
